@@ -148,7 +148,6 @@ class ScatteringParams:
         )
 
     @staticmethod
-    @lru_cache
     def for_isotope(isotope: str) -> ScatteringParams:
         """Return the scattering parameters for the given element / isotope.
 
@@ -163,10 +162,11 @@ class ScatteringParams:
         :
             Neutron scattering parameters.
         """
-        with _open_bundled_parameters_file('scattering_parameters.csv') as f:
-            if line_remainder := _find_line_with_isotope(isotope, f):
-                return ScatteringParams._parse_line(isotope, line_remainder)
-        raise ValueError(f"No entry for element / isotope '{isotope}'")
+        # Only the line of the table is cached, not the returned object because
+        # the latter holds mutable variables.
+        return ScatteringParams._parse_line(
+            isotope, _load_scattering_parameters_line(isotope)
+        )
 
     @staticmethod
     def _parse_line(isotope: str, line: str) -> ScatteringParams:
@@ -186,6 +186,14 @@ class ScatteringParams:
             total_scattering_cross_section=_assemble_scalar(line[12], line[13], 'barn'),
             absorption_cross_section=_assemble_scalar(line[14], line[15], 'barn'),
         )
+
+
+@lru_cache
+def _load_scattering_parameters_line(isotope: str) -> str:
+    with _open_bundled_parameters_file('scattering_parameters.csv') as f:
+        if line_remainder := _find_line_with_isotope(isotope, f):
+            return line_remainder
+    raise ValueError(f"No entry for element / isotope '{isotope}'")
 
 
 def _open_bundled_parameters_file(name: str) -> TextIO:
